@@ -204,6 +204,15 @@ def configs(tier):
         for lmin in (3, 4):
             for lmax in range(lmin, lmin + 3):
                 out.append(({"d": d, "lmin": lmin, "lmax": lmax}, 1))
+    # higher dimensions (d = 4 in the quick tier, 5 and 6 in both): initial state and the first refinement layer (depth 0: requests only)
+    for d, spans in ((4, (0, 1, 2)), (5, (0, 1, 2)), (6, (0, 1))):
+        if d == 4 and tier != "quick":
+            continue
+        for lmin in (1, 2):
+            for span in spans:
+                if tier == "quick" and ((d == 5 and span == 2) or (d == 6 and span == 1 and lmin == 2)):
+                    continue                    # (a single state of d=5, span 2 costs a minute: thorough tier only)
+                out.append(({"d": d, "lmin": lmin, "lmax": lmin + span}, 1 if d == 4 else 0))
     return out
 
 
